@@ -176,7 +176,7 @@ def _dpd_job(args):
     import itertools
 
     try:
-        from ampform.kinematics.angles import formulate_zeta_angle
+        from ampform.kinematics.angles import formulate_theta_hat_angle, formulate_zeta_angle
         from ampform.sympy import PoolSum
 
         reaction0 = load(spec)
@@ -210,7 +210,9 @@ def _dpd_job(args):
             sub = {int(c) for c in re.sub(r"[^0-9]", "", base)}
             (k,) = {1, 2, 3} - sub
             for i in range(4):
-                _, expr = formulate_zeta_angle(i, k, ref)
+                # the parent's angle is, by its definition in the decomposition, theta-hat_{k(ref)} (whose orientation C19 checks);
+                # taken from formulate_theta_hat_angle, not from formulate_zeta_angle(0, ...), which is what is under test here
+                _, expr = formulate_theta_hat_angle(k, ref) if i == 0 else formulate_zeta_angle(i, k, ref)
                 e = expr.doit()
                 syms = sorted(e.free_symbols, key=str)
                 fz = sp.lambdify(syms, e, "numpy")
